@@ -604,7 +604,13 @@ def _literal_writes(lib, tr):
     out = []
     for e in tr.writes():
         site = e[3]
-        if site is None or any("ph" in p for p in site["pieces"]):
+        if site is not None and any("ph" in p for p in site["pieces"]) and e[2] is not None:
+            # placeholders whose arguments are known constants (`write!(f, "{INDENT_UNIT}")`): the rendered text
+            txt = e[2]
+            if is_writeln(e[1]) and not txt.endswith("\n"):
+                txt += "\n"
+            out.append((e[1], txt))
+        elif site is None or any("ph" in p for p in site["pieces"]):
             out.append((e[1], None))
         else:
             txt = "".join(p["lit"] for p in site["pieces"])
